@@ -503,6 +503,15 @@ def m_range_contains(m, st, ctx, args, span):
 
 # ------------------------------------------------------------------------------------------------ pointers
 
+def known_nonnull(e):
+    """Addresses of functions are never null."""
+    if e.op == "fnaddr":
+        return True
+    if e.op == "gamma":
+        return known_nonnull(e.args[1]) and known_nonnull(e.args[2])
+    return False
+
+
 @model("std::ptr::NonNull::<T>::new")
 def m_nonnull_new(m, st, ctx, args, span):
     p = args[0]
@@ -511,6 +520,8 @@ def m_nonnull_new(m, st, ctx, args, span):
     if isinstance(p, Int):
         if p.is_const():
             return none() if p.cval() == 0 else some(Adt("std::ptr::NonNull", 0, "NonNull", [p], ["pointer"]))
+        if known_nonnull(p.e):
+            return some(Adt("std::ptr::NonNull", 0, "NonNull", [p], ["pointer"]))
         cond = cmpop("ne", p.e, const(0, p.w))
         return Fork(cond, [(1, some(Adt("std::ptr::NonNull", 0, "NonNull", [p], ["pointer"]))), (0, none())])
     if isinstance(p, Opaque):
